@@ -90,6 +90,8 @@ fn build(c: &Case) -> FnGraph<Acc> {
     if BUILDS.fetch_add(1, std::sync::atomic::Ordering::Relaxed) % 2 == 1 { g.clone() } else { g }
 }
 static BUILDS: std::sync::atomic::AtomicUsize = std::sync::atomic::AtomicUsize::new(0);
+static RUNS: std::sync::atomic::AtomicUsize = std::sync::atomic::AtomicUsize::new(0);
+thread_local! { static FORCE_FRESH: std::cell::Cell<Option<bool>> = const { std::cell::Cell::new(None) }; }
 
 fn conflict(a: &Acc, b: &Acc) -> bool {
     a.reads.iter().any(|t| b.writes.contains(t)) || a.writes.iter().any(|t| b.reads.contains(t)) || a.writes.iter().any(|t| b.writes.contains(t))
@@ -146,12 +148,15 @@ fn check_trace(which: &str, c: &Case, edges: &[(usize, usize)], tr: &[Ev], compl
     Ok(())
 }
 
-struct Run<'a> { panicked: bool, fut: Option<Fut<'a>>, st: Rc<RunSt>, waker: Waker, cnt: std::sync::Arc<WakeCount>, seen: usize, edges: Vec<(usize, usize)>, limit: Option<usize>, label: String }
+struct Run<'a> { fresh_wakers: bool, panicked: bool, fut: Option<Fut<'a>>, st: Rc<RunSt>, waker: Waker, cnt: std::sync::Arc<WakeCount>, seen: usize, edges: Vec<(usize, usize)>, limit: Option<usize>, label: String }
 
 /// polls the run until it is done or quiescent (Pending with no wake-up since the poll began); true when done
 fn settle(r: &mut Run<'_>) -> bool {
     loop {
         let Some(f) = r.fut.as_mut() else { return true };
+        // every other run is polled with a FRESH waker each time (an executor may do that: select!, poll!, moving a future between
+        // tasks): a wake-up counts only if it reaches the waker of the most recent poll, as the Future contract requires
+        if r.fresh_wakers { let (w, c) = counting_waker(); r.waker = w; r.cnt = c; }
         r.seen = wakes(&r.cnt);
         let mut cx = ctx(&r.waker);
         // a panic inside the run (e.g. a counter underflow) ends it: what happened before is still judged by the caller
@@ -262,13 +267,13 @@ fn new_run_mut<'a>(g: &'a mut FnGraph<Acc>, reverse: bool, variant: usize, tag: 
             _ => { let _ = g.try_fold_async_mut_with((), opts, move |(), mut f| { let fu = body(&mut *f); async move { fu.await; Ok::<(), ()>(()) }.boxed_local() }).await; }
         }
     });
-    Run { panicked: false, fut: Some(fut), st, waker, cnt, seen: 0, edges, limit: None, label: format!("{tag}{name}(reverse={reverse})") }
+    Run { fresh_wakers: FORCE_FRESH.with(|f| f.get()).unwrap_or_else(|| RUNS.fetch_add(1, std::sync::atomic::Ordering::Relaxed) % 2 == 1), panicked: false, fut: Some(fut), st, waker, cnt, seen: 0, edges, limit: None, label: format!("{tag}{name}(reverse={reverse})") }
 }
 
 fn new_run<'a>(g: &'a FnGraph<Acc>, api: Api, reverse: bool, limit: Option<usize>, tag: &str) -> Run<'a> {
     let st = Rc::new(RunSt::default());
     let (waker, cnt) = counting_waker();
-    Run { panicked: false, fut: Some(make_run(g, api, reverse, limit, st.clone())), st, waker, cnt, seen: 0, edges: built_edges(g, reverse), limit, label: format!("{tag}{api:?}(limit={limit:?}, reverse={reverse})") }
+    Run { fresh_wakers: FORCE_FRESH.with(|f| f.get()).unwrap_or_else(|| RUNS.fetch_add(1, std::sync::atomic::Ordering::Relaxed) % 2 == 1), panicked: false, fut: Some(make_run(g, api, reverse, limit, st.clone())), st, waker, cnt, seen: 0, edges: built_edges(g, reverse), limit, label: format!("{tag}{api:?}(limit={limit:?}, reverse={reverse})") }
 }
 
 fn run_case(which: &'static str, c: &Case, seed: u64) -> Result<(), String> {
@@ -350,7 +355,7 @@ fn run_case(which: &'static str, c: &Case, seed: u64) -> Result<(), String> {
 }
 
 /// EXHAUSTIVE mode (still a bounded check): every DAG on up to 4 functions (edges from lower to higher id; the reverse runs
-/// cover the other orientation), every API, both directions, limits None / 1 / 2, and EVERY sequence of driver choices - how many
+/// cover the other orientation), every API, both directions, limits None / 1 / 2, both waker disciplines (one waker per run / a fresh one per poll), and EVERY sequence of driver choices - how many
 /// functions return before the next poll (1..3) and which ones. With access declarations (none / read / write of one type per
 /// function) up to 3 functions. All single-run oracles at every quiescent point.
 fn exhaustive(which: &'static str) {
@@ -367,7 +372,9 @@ fn exhaustive(which: &'static str) {
                 let accs: Vec<Acc> = (0..n).map(|i| match (ac / 3u32.pow(i as u32)) % 3 { 0 => Acc { id: i, reads: vec![], writes: vec![] }, 1 => Acc { id: i, reads: vec![0], writes: vec![] }, _ => Acc { id: i, reads: vec![], writes: vec![0] } }).collect();
                 let c = Case { n, accs, edges: edges.clone(), desc: format!("exhaustive: n={n} edges={edges:?} access code {ac} (base 3 per function: 0 none, 1 reads type 0, 2 writes type 0)") };
                 graphs += 1;
-                for api in [Api::ForEach, Api::TryForEach, Api::Stream] { for reverse in [false, true] { for limit in [None, Some(1usize), Some(2)] {
+                for fresh in [false, true] { for api in [Api::ForEach, Api::TryForEach, Api::Stream] { for reverse in [false, true] { for limit in [None, Some(1usize), Some(2)] {
+                    // both waker disciplines: one waker for the whole run / a fresh waker at every poll
+                    FORCE_FRESH.with(|f| f.set(Some(fresh)));
                     if api == Api::Stream && limit.is_some() { continue; }
                     if limit.is_some() && !(on("C10") || on("C04")) { continue; }
                     SCRIPT.with(|s| *s.borrow_mut() = Some(vec![]));
@@ -387,7 +394,8 @@ fn exhaustive(which: &'static str) {
                         match next_script() { Some(sc) => SCRIPT.with(|s| *s.borrow_mut() = Some(sc)), None => break }
                     }
                     SCRIPT.with(|s| *s.borrow_mut() = None);
-                } } }
+                } } } }
+                FORCE_FRESH.with(|f| f.set(None));
             }
         }
     }
